@@ -130,6 +130,9 @@ def slot_per_call(F, R, cs):
     for bi, t, ap in calls_on_field(cs, r'VecDeque::<T, A>::push_back$', 'queue'):
         og = Origin(cs).of_operand(t['args'][1])
         kind = sorted({l[1].split('::')[-1] for l in og if l[0] == 'agg' and 'ServiceResult' in l[1]})
+        if not kind and not any('ServiceResult' in a for a in F.adts):
+            # the slot type may be a plain Option: None = still pending, Some(result) = completed
+            kind = sorted({{'None': 'Pending', 'Some': 'Ready'}[l[1].split('::')[-1]] for l in og if l[0] == 'agg' and l[1] in ('std::option::Option::None', 'std::option::Option::Some')})
         pushes.append((bi, t, '+'.join(kind)))
     pend = [(bi, t) for bi, t, k in pushes if k == 'Pending']
     R.ob('C04.slot-per-call', 'call_service|Pending-push-sites', len(pend) == 2, 'found %d pushes of a Pending slot' % len(pend))
